@@ -92,7 +92,8 @@ func vNextAroundTransition(zoneName string, base time.Time, cover string) {
 
 // A transition AT MIDNIGHT (America/Sao_Paulo, 2018-11-04: 00:00 -03 -> 01:00 -02, the hour 00:00-01:00 does not
 // exist that day; and 2019-02-17: 00:00 -02 -> 23:00 -03 of the day before, the hour 23:00-24:00 of 02-16 happens
-// twice) with the DAY fields in play: start instants every hour from 21:30 two and a half hours before the transition
+// twice; America/Havana 2009-11-01 and 2009-03-08 likewise, the first one on the first of a month) with the DAY fields
+// in play: start instants every hour from 21:30 two and a half hours before the transition
 // to 04:30 after it; day-of-month an arbitrary non-empty subset of the three days around it, hour an arbitrary
 // non-empty subset of {0, 1, 22, 23} or unrestricted, minute and second 0. The result is strictly after the start,
 // matches on the zone's wall clock, and no whole hour in between matches.
@@ -101,18 +102,29 @@ func vNextAroundTransition(zoneName string, base time.Time, cover string) {
 func VerifNextDSTAtMidnight() {
 	zone := zzverif.RealZone("America/Sao_Paulo")
 	var base time.Time
-	var d0 uint
-	if zzverif.Bool("autumn") {
-		base = time.Date(2019, 2, 16, 23, 30, 30, 0, time.UTC) // 21:30:30 -02 on 02-16; transition at 02:00 UTC on 02-17
-		d0 = 16
-	} else {
+	var dayBits uint64
+	switch zzverif.Choose("transition", 4) {
+	case 0:
 		base = time.Date(2018, 11, 4, 0, 30, 30, 0, time.UTC) // 21:30:30 -03 on 11-03; transition at 03:00 UTC
-		d0 = 3
+		dayBits = 7 << 3
+	case 1:
+		base = time.Date(2019, 2, 16, 23, 30, 30, 0, time.UTC) // 21:30:30 -02 on 02-16; transition at 02:00 UTC on 02-17
+		dayBits = 7 << 16
+	case 2:
+		// America/Havana 2009-11-01: 01:00 CDT -> 00:00 CST, the first hour of the FIRST of the month happens twice
+		zone = zzverif.RealZone("America/Havana")
+		base = time.Date(2009, 11, 1, 1, 30, 30, 0, time.UTC) // 21:30:30 -04 on 10-31; transition at 05:00 UTC
+		dayBits = 1<<31 | 1<<1 | 1<<2
+	case 3:
+		// America/Havana 2009-03-08: 00:00 CST -> 01:00 CDT
+		zone = zzverif.RealZone("America/Havana")
+		base = time.Date(2009, 3, 8, 2, 30, 30, 0, time.UTC) // 21:30:30 -05 on 03-07; transition at 05:00 UTC
+		dayBits = 7 << 7
 	}
 	start := base.Add(time.Duration(zzverif.Choose("hours_after_base", 8)) * time.Hour).In(zone)
 	days := zzverif.Uint64("day_set")
 	zzverif.Assume(days != 0)
-	zzverif.Assume(days&^(uint64(7)<<d0) == 0)
+	zzverif.Assume(days&^dayBits == 0)
 	hours := uint64(1)<<24 - 1
 	if zzverif.Bool("hours_restricted") {
 		hours = zzverif.Uint64("hour_set")
